@@ -23,6 +23,10 @@ verus! {
 broadcast use {effectlog::group_effectlog, ports::axiom_port_chan};
 pub trait Message: Sized {}
 #[verifier::external_body] #[derive(Clone, Copy)] pub struct Duration { _p: u8 }
+impl Duration {
+    #[verifier::external_body]
+    pub fn is_zero(&self) -> bool { unimplemented!() }
+}
 #[verifier::external_body] pub struct RecvErr { _p: u8 }
 #[verifier::external_body] pub struct Elapsed { _p: u8 }
 #[verifier::reject_recursive_types(T)]
